@@ -31,6 +31,8 @@ class _Env:
     side = None          # list to which purification constraints are appended (engine sets per path)
     defined = None       # list of definedness conditions (divisor != 0, radicand >= 0)
     fresh_counter = 0
+    tiefree = False      # when set, sign(x) of a symbolic real assumes x != 0 (recorded as a path assumption)
+    tie_assumptions = 0
 
 
 ENV = _Env()
@@ -899,6 +901,10 @@ def sign(a):
         return a
     if isinstance(a, Cases):
         return a.map(sign)
+    if ENV.tiefree:
+        add_side(zbool(ne(a, 0)))
+        ENV.tie_assumptions += 1
+        return where(lt(a, 0), -1.0, 1.0)
     return where(gt(a, 0), 1.0, where(lt(a, 0), -1.0, 0.0))
 
 
